@@ -10,6 +10,7 @@ import (
 	"encoding/binary"
 	"encoding/json"
 	"fmt"
+	"github.com/multiformats/go-multihash"
 	"io"
 	"math"
 	"math/big"
@@ -414,6 +415,17 @@ func init() {
 						}
 					}
 					chk("ToSealed", t.id, nil)
+					// sealing the same token again (randomized signature schemes give other bytes): every call
+					// reports the CID of the bytes it returns
+					for k := 2; k <= 4; k++ {
+						b, id, err := t.tok.ToSealed(t.priv.priv)
+						if err != nil {
+							rep.violation(map[string]any{"api": "ToSealed", "call": k, "token": t.typ + "/" + t.alg}, "sealed", err.Error(), "sealing the same token again failed")
+						} else if !bytes.Equal(id.Bytes(), manualCid(b)) {
+							rep.violation(map[string]any{"api": "ToSealed", "call": k, "token": t.typ + "/" + t.alg}, fmt.Sprintf("%x", manualCid(b)), fmt.Sprintf("%x", id.Bytes()),
+								fmt.Sprintf("call %d of ToSealed on the same token reports a CID that is not the CID of the bytes it returned", k))
+						}
+					}
 					// every kind of destination: encoders probe the writer for optional interfaces
 					for _, sk := range sinkKinds() {
 						var wid cid.Cid
@@ -474,6 +486,22 @@ func init() {
 						}
 						for k := range rd {
 							chk("container.Reader key ("+f+")", k, nil)
+						}
+					}
+					// a CAR whose section is labelled with another (valid) CID of the same bytes: the reader's keys are
+					// still the content addresses CIDv1(dag-cbor, sha2-256)
+					for _, label := range []cid.Cid{rawCid(t.sealed), func() cid.Cid {
+						h, _ := multihash.Sum(t.sealed, multihash.SHA2_512, -1)
+						return cid.NewCidV1(cid.DagCBOR, h)
+					}()} {
+						fw := container.NewWriter()
+						fw.AddSealed(label, t.sealed)
+						if data, err := fw.ToCar(); err == nil {
+							if rd, err := container.FromCar(data); err == nil {
+								for k := range rd {
+									chk("container.Reader key (car, section labelled "+label.String()[:12]+"...)", k, nil)
+								}
+							}
 						}
 					}
 				}
